@@ -125,8 +125,8 @@ func baseTree0() tree {
 		r := rule{kind: kind, name: name, expr: expr}
 		if kind == "alerting" {
 			r.forv = "5m"
-			r.labels = [][2]string{{"severity", "page"}}
-			r.anns = [][2]string{{"summary", "something is down"}}
+			r.labels = [][2]string{{"severity", "page"}, {"team", "sre"}}
+			r.anns = [][2]string{{"summary", "something is down"}, {"runbook", "https://example.com/r"}}
 		} else {
 			r.labels = [][2]string{{"team", "sre"}}
 		}
@@ -263,6 +263,23 @@ func ops() []op {
 			} else {
 				r.anns = nil
 				r.labels = append(r.labels, [2]string{fmt.Sprintf("extra%d", len(r.labels)), "one"})
+			}
+		}))
+		out = append(out, ruleOp(fi, 0, "drop one label of several", func(r *rule) {
+			if len(r.labels) > 1 {
+				r.labels = r.labels[:len(r.labels)-1]
+			} else {
+				r.labels = append(r.labels, [2]string{"second", "label"})
+			}
+		}))
+		out = append(out, ruleOp(fi, 0, "drop one annotation of several", func(r *rule) {
+			switch {
+			case len(r.anns) > 1:
+				r.anns = r.anns[1:]
+			case r.kind == "alerting":
+				r.anns = append(r.anns, [2]string{"second", "annotation"})
+			default:
+				r.labels = append(r.labels, [2]string{fmt.Sprintf("another%d", len(r.labels)), "label"})
 			}
 		}))
 		out = append(out, ruleOp(fi, 0, "change for", func(r *rule) {
